@@ -1,2 +1,188 @@
+import PelModel.PelSpec
+import PelProofs.JsonParse
+import PelProps.C13
+import PelProofs.UserData
+/-
+  C04 — User data is rendered from its content or preserved byte-for-byte as a hex dump.
+  Statements are about `parseUserData` + `udToJson` (the whole path from payload to the displayed section)
+  and `decodeDefault`.
+-/
 namespace Pel.C04
+
+def headMembers (T : Tables) (h : SecHdr) (creator : Text) : List (Text × J) :=
+  [kv "Section Version" (jnum h.ver), kv "Sub-section type" (jnum h.sub), kv "Created by" (jstr (displayCompID T h.comp creator))]
+
+def isBuiltin (T : Tables) (creator : Text) (comp : Nat) : Prop := lookupT T.creators creator = some (s "BMC") ∧ comp = 0x2000
+
+/-- the section as displayed -/
+def shown (T : Tables) (env : UdEnv) (allow : Bool) (h : SecHdr) (creator : Text) (data : Bytes) : Except Err J :=
+  udToJson T h creator (parseUserData T env allow creator h.comp h.sub h.ver data)
+
+/-- ★ the "Data" member of a fallback is a lossless dump: its lines parse back to exactly the payload -/
+theorem dump_recovers_payload (data : Bytes) (hb : ∀ x ∈ data, x < 256) (hlen : data.length ≤ 2 ^ 32) :
+    hexdumpJ data = .arr ((hexdump16 data).map jstr) ∧ parseDump fmtDefault (hexdump16 data) = data := by
+  exact ⟨rfl, Pel.C13.parse_hexdump data hb hlen⟩
+
+/-- ★ (ii) no parser module for this creator/component -/
+theorem fallback_absent (T : Tables) (env : UdEnv) (h : SecHdr) (creator : Text) (data : Bytes)
+    (hnb : ¬ isBuiltin T creator h.comp) (habs : env (udModuleName creator h.comp) = .absent) :
+    shown T env true h creator data = .ok (.obj (headMembers T h creator ++ [kv "Data" (hexdumpJ data)])) := by
+  unfold shown parseUserData udToJson headMembers
+  unfold isBuiltin at hnb
+  simp only [if_neg hnb, Bool.not_true, Bool.false_eq_true, if_false, habs, hexdumpJ]
+  rw [objSet_head_data]
+
+/-- ★ (iii) parser modules disabled -/
+theorem fallback_disabled (T : Tables) (env : UdEnv) (h : SecHdr) (creator : Text) (data : Bytes)
+    (hnb : ¬ isBuiltin T creator h.comp) (hne : data ≠ []) :
+    shown T env false h creator data = .ok (.obj (headMembers T h creator ++ [kv "Data" (hexdumpJ data)])) := by
+  unfold shown parseUserData udToJson headMembers
+  unfold isBuiltin at hnb
+  simp only [if_neg hnb, Bool.not_false, if_true, if_pos hne]
+  rw [objUpdate_head_data]
+
+/-- ★ (iv) the parser module raises: error note + dump -/
+theorem fallback_raises (T : Tables) (env : UdEnv) (h : SecHdr) (creator : Text) (data : Bytes) (msg : Text)
+    (hnb : ¬ isBuiltin T creator h.comp) (hne : data ≠ []) (hr : env (udModuleName creator h.comp) = .raises msg) :
+    ∃ note, shown T env true h creator data =
+      .ok (.obj (headMembers T h creator ++ [kv "Error" (jstr note), kv "Data" (hexdumpJ data)])) := by
+  unfold shown parseUserData udToJson headMembers
+  unfold isBuiltin at hnb
+  simp only [if_neg hnb, Bool.not_true, Bool.false_eq_true, if_false, hr, errorWithData, if_pos hne, List.cons_append,
+    List.nil_append]
+  rw [objUpdate_head_error_data]
+  exact ⟨_, rfl⟩
+
+/-- ★ (v) the parser module returns nothing: error note + dump -/
+theorem fallback_none (T : Tables) (env : UdEnv) (h : SecHdr) (creator : Text) (data : Bytes)
+    (hnb : ¬ isBuiltin T creator h.comp) (hne : data ≠ []) (hr : env (udModuleName creator h.comp) = .returnsNone) :
+    ∃ note, shown T env true h creator data =
+      .ok (.obj (headMembers T h creator ++ [kv "Error" (jstr note), kv "Data" (hexdumpJ data)])) := by
+  unfold shown parseUserData udToJson headMembers
+  unfold isBuiltin at hnb
+  simp only [if_neg hnb, Bool.not_true, Bool.false_eq_true, if_false, hr, errorWithData, if_pos hne, List.cons_append,
+    List.nil_append]
+  rw [objUpdate_head_error_data]
+  exact ⟨_, rfl⟩
+
+/-- built-in component, sub-type other than JSON / text (CBOR, custom, …): dump -/
+theorem builtin_other_subtype (T : Tables) (env : UdEnv) (allow : Bool) (h : SecHdr) (creator : Text) (data : Bytes)
+    (hb : isBuiltin T creator h.comp) (h1 : h.sub ≠ 1) (h3 : h.sub ≠ 3) :
+    shown T env allow h creator data = .ok (.obj (headMembers T h creator ++ [kv "Data" (hexdumpJ data)])) := by
+  unfold shown parseUserData udToJson headMembers builtinFormat
+  unfold isBuiltin at hb
+  simp only [if_pos hb, if_neg h1, if_neg h3, hexdumpJ]
+  rw [objSet_head_data]
+
+/-- ★ (i) an unrecognised / hexdump-only section type: the entry carries the dump of exactly its payload -/
+theorem unrecognised_type (h : SecHdr) (data rest : Bytes) (hlen : h.len = 8 + data.length) (hne : 1 ≤ data.length) :
+    decodeDefault h (data ++ rest) =
+      .ok (.obj [kv "Section Version" (jnum h.ver), kv "Sub-section type" (jnum h.sub),
+                 kv "Created by" (jstr (ox (fmtHex 2 h.comp))), kv "Data" (hexdumpJ data)], rest) := by
+  unfold decodeDefault
+  have e : h.len - 8 = data.length := by omega
+  have hn : ¬ data.length = 0 := by omega
+  simp only [e, bind, StateT.bind, getMem, if_neg hn, List.length_append, Nat.le_add_right, if_true, Except.bind,
+    List.take_left', List.drop_left', pure, StateT.pure, Except.pure]
+
+/-- the lines of the built-in text format: the text is split at newlines, every character outside 0x20..0x7E is
+    replaced by '.', all other characters are kept in order; a final empty line is not listed -/
+def specLines (t : Text) : List Text :=
+  let ls := (splitNL t).map (fun l => l.map (fun ch => if ch < 32 ∨ ch > 126 then 46 else ch))
+  if ls.getLast? = some [] then ls.dropLast else ls
+
+theorem text_lines_spec (t : Text) : textLinesGo t [] = specLines t := by
+  obtain ⟨l, ls, e⟩ := splitNL_ne_nil t
+  rw [textLinesGo_gen t [] l ls e]
+  simp only [specLines, e, List.map_cons, List.nil_append, finLines]
+  rfl
+
+/-- ★ built-in text format: the lines of the (whitespace/NUL-stripped) text with only non-printables replaced -/
+theorem builtin_text (T : Tables) (env : UdEnv) (allow : Bool) (h : SecHdr) (creator : Text) (data : Bytes) (t : Text)
+    (hb : isBuiltin T creator h.comp) (h3 : h.sub = 3) (hd : utf8Decode data = some t) :
+    shown T env allow h creator data =
+      .ok (.obj (headMembers T h creator ++ [kv "Data" (.arr ((specLines (rstripChar 0 (stripSp t))).map jstr))])) := by
+  unfold shown parseUserData udToJson headMembers builtinFormat
+  unfold isBuiltin at hb
+  have h31 : ¬ h.sub = 1 := by omega
+  simp only [if_pos hb, if_neg h31, if_pos h3, hd, builtinText, text_lines_spec]
+  rw [objSet_head_data]
+
+/-- ★ built-in JSON format, object: every member of the user's object is displayed with its value
+    (members whose key collides with a header key replace that key's value in place) -/
+theorem builtin_json_object (T : Tables) (env : UdEnv) (allow : Bool) (h : SecHdr) (creator : Text) (data : Bytes) (t : Text)
+    (members : List (Text × J))
+    (hb : isBuiltin T creator h.comp) (h1 : h.sub = 1) (hd : utf8Decode data = some t)
+    (hl : loads (rstripChar 0 (stripSp t)) = .ok (.obj members)) :
+    shown T env allow h creator data = .ok (.obj (objUpdate (headMembers T h creator) members)) := by
+  unfold shown parseUserData udToJson headMembers builtinFormat
+  unfold isBuiltin at hb
+  simp only [if_pos hb, if_pos h1, hd, hl]
+
+theorem objUpdate_shows_all (head members : List (Text × J)) (hd : (members.map (·.1)).Nodup) :
+    ∀ kv ∈ members, objGet? (objUpdate head members) kv.1 = some kv.2 := by
+  exact objGet_objUpdate_mem members head hd
+
+/-- built-in JSON format, any other JSON value: displayed under "Data" -/
+theorem builtin_json_value (T : Tables) (env : UdEnv) (allow : Bool) (h : SecHdr) (creator : Text) (data : Bytes) (t : Text)
+    (j : J) (hb : isBuiltin T creator h.comp) (h1 : h.sub = 1) (hd : utf8Decode data = some t)
+    (hl : loads (rstripChar 0 (stripSp t)) = .ok j) (hno : ∀ m, j ≠ .obj m) :
+    shown T env allow h creator data = .ok (.obj (headMembers T h creator ++ [kv "Data" j])) := by
+  unfold shown parseUserData udToJson headMembers builtinFormat
+  unfold isBuiltin at hb
+  simp only [if_pos hb, if_pos h1, hd, hl]
+  cases j with
+  | obj m => exact absurd rfl (hno m)
+  | _ => simp only [objSet_head_data]
+
+/-- ★ round trip for the built-in JSON format: a payload that is the JSON text of a document `d` (as printed by
+    `json.dumps`, any indentation column), optionally NUL padded, is displayed as that same value -/
+theorem builtin_json_roundtrip (T : Tables) (env : UdEnv) (allow : Bool) (h : SecHdr) (creator : Text) (d : J) (n pad : Nat)
+    (hb : isBuiltin T creator h.comp) (h1 : h.sub = 1) (hw : d.wf = true) :
+    shown T env allow h creator (aText n d 0 ++ List.replicate pad 0) =
+      .ok (match d with
+        | .obj members => .obj (objUpdate (headMembers T h creator) members)
+        | j => .obj (headMembers T h creator ++ [kv "Data" j])) := by
+  obtain ⟨hd, hs⟩ := builtin_sees_aText n d pad
+  have hl : loads (rstripChar 0 (stripSp (aText n d 0 ++ List.replicate pad 0))) = .ok d := by
+    rw [hs]; exact loads_aText n d hw
+  cases d with
+  | obj m => exact builtin_json_object T env allow h creator _ _ m hb h1 hd hl
+  | _ => exact builtin_json_value T env allow h creator _ _ _ hb h1 hd hl (by intro m hm; cases hm)
+
+/-- ★ payload bytes are never silently dropped: whatever the environment does, the displayed section is computed
+    from the payload by a decoder (built-in format or parser module) or contains the lossless dump of the payload -/
+theorem never_dropped (T : Tables) (env : UdEnv) (allow : Bool) (h : SecHdr) (creator : Text) (data : Bytes) (hne : data ≠ []) :
+    (isBuiltin T creator h.comp ∧ (h.sub = 1 ∨ h.sub = 3)) ∨
+    (allow = true ∧ ¬ isBuiltin T creator h.comp ∧
+      (env (udModuleName creator h.comp) = .echo ∨ ∃ t, env (udModuleName creator h.comp) = .returnsText t)) ∨
+    (∃ pre, shown T env allow h creator data = .ok (.obj (headMembers T h creator ++ pre ++ [kv "Data" (hexdumpJ data)]))) := by
+  by_cases hb : isBuiltin T creator h.comp
+  · by_cases h1 : h.sub = 1
+    · exact Or.inl ⟨hb, Or.inl h1⟩
+    · by_cases h3 : h.sub = 3
+      · exact Or.inl ⟨hb, Or.inr h3⟩
+      · refine Or.inr (Or.inr ⟨[], ?_⟩)
+        rw [List.append_nil]
+        exact builtin_other_subtype T env allow h creator data hb h1 h3
+  · cases allow with
+    | false =>
+      refine Or.inr (Or.inr ⟨[], ?_⟩)
+      rw [List.append_nil]
+      exact fallback_disabled T env h creator data hb hne
+    | true =>
+      cases he : env (udModuleName creator h.comp) with
+      | absent =>
+        refine Or.inr (Or.inr ⟨[], ?_⟩)
+        rw [List.append_nil]
+        exact fallback_absent T env h creator data hb he
+      | echo => exact Or.inr (Or.inl ⟨rfl, hb, Or.inl rfl⟩)
+      | raises msg =>
+        obtain ⟨note, e⟩ := fallback_raises T env h creator data msg hb hne he
+        exact Or.inr (Or.inr ⟨[kv "Error" (jstr note)], by rw [e, List.append_assoc]; rfl⟩)
+      | returnsNone =>
+        obtain ⟨note, e⟩ := fallback_none T env h creator data hb hne he
+        exact Or.inr (Or.inr ⟨[kv "Error" (jstr note)], by rw [e, List.append_assoc]; rfl⟩)
+      | returnsText t => exact Or.inr (Or.inl ⟨rfl, hb, Or.inr ⟨t, rfl⟩⟩)
+
 end Pel.C04
